@@ -59,6 +59,11 @@ CLAIMED = {
         'close_connection removes the entry, closes in the sink once and raises for no id (the KeyError for never-seen connections was a genuine defect: found by the check, repaired by a fix: commit); a re-used address is opened again as a new connection by the manager contract (C04).',
    note='Assumed gdb API (selected_thread, breakpoints). The destroy breakpoint stop() wrapper and connection_id_of are one-liners over the gdb API and not under contract. Thread-mismatch warning: only that it does not raise / change entries.',
    technique='contract-based deductive verification; native replay of the counterexample; z3'),
+ 'C08': dict(level='proof', design='6.C08',
+   text='Loop contract of Parser.parse_all on ghost input/ext traces and counters: every line read yields exactly one item - one forward to the sink (decoded message) or one pass-through whose text is the stripped line itself - the item is produced before the next read (the last event before a read is never a read), the loop only ends at end of input (or KeyboardInterrupt) and decoding is never switched off; '
+        'Output.unprocessed writes iff --supress is off; into_sink = parse_all then cleanup (close notices only). The check found a genuine defect (a request unknown to a known interface was shown as an error text, two items for one line) which is repaired in /repo.',
+   note='Assumed: readline delivers the lines of the input in order ("" only at end); which texts are message lines is the opaque predicate is_wl_line (C01 territory); the sink is the ConnectionManager and rejects (RuntimeError) only messages of ill-formed histories, e.g. delete_id of an unknown id - such a message is counted as forwarded AND reported (stated in the invariant, ghost counter n_rej). An AssertionError inside the sink (malformed bind) switches decoding off: outside the well-formed streams of the property.',
+   technique='contract-based deductive verification: loop invariant over ghost traces and counters, exceptional postconditions; native replay; z3'),
 }
 
 NA_REASON = 'not yet built in this session (machinery under construction); see DESIGN.md section 6'
